@@ -412,6 +412,153 @@ func runC20(c C20Case) pbt.Result {
 	return res
 }
 
+// ---- C20 sweep: one transient fault at every controller call position ----
+
+// C20SweepCase: a small confluent workload; Phase/K/Kind select the single
+// fault (K == 0: every call position of every phase x every kind).
+type C20SweepCase struct {
+	Base  C20Case `json:"base"`
+	Phase int     `json:"phase"`
+	K     int     `json:"k"`
+	Kind  string  `json:"kind"`
+}
+
+var c20SweepKinds = []sim.FaultKind{sim.FaultReject, sim.FaultTimeout, sim.FaultConflict, sim.FaultCommitTimeout}
+
+func isControllerActor(a string) bool {
+	return a == "job" || a == "jobqueue" || a == "jobconfig" || a == "cron"
+}
+
+// c20Calls runs the workload fault-free and returns, per phase, the write calls
+// the controllers issued while that phase was settled.
+func c20Calls(c C20Case) [][]*sim.Entry {
+	base := E2Trace{Start: c.Start, Cfg: c.Cfg, JCs: c.JCs, Profile: "c20", ListSalt: c.ListSalt}
+	r := newE2Run(&base, false)
+	var out [][]*sim.Entry
+	for _, ph := range c.Phases {
+		for _, op := range ph {
+			r.apply(op)
+		}
+		from := len(r.w.API.Ledger)
+		r.settle()
+		var calls []*sim.Entry
+		for _, e := range r.w.API.Ledger[from:] {
+			if isControllerActor(e.Actor) {
+				calls = append(calls, e)
+			}
+		}
+		out = append(out, calls)
+	}
+	return out
+}
+
+func genC20Sweep(t *rapid.T) C20SweepCase {
+	tr := genE2Setup(t, c20Profile)
+	for i := range tr.JCs { // small workloads: the thorough tier multiplies them by every call position
+		if tr.JCs[i].ParN > 2 {
+			tr.JCs[i].ParN = 2
+		}
+	}
+	c := C20Case{Start: tr.Start, Cfg: tr.Cfg, JCs: tr.JCs, ListSalt: tr.ListSalt}
+	nph := rapid.IntRange(2, 4).Draw(t, "nphases")
+	r := newE2Run(tr, false)
+	for ph := 0; ph < nph; ph++ {
+		sub := &E2Trace{Start: tr.Start, Cfg: tr.Cfg, JCs: tr.JCs, ListSalt: tr.ListSalt}
+		pp := c20Profile
+		pp.maxJobs = 3
+		pp.steps = rapid.IntRange(1, 5).Draw(t, "phaseops")
+		genOpsOn(t, r, sub, pp, ph*10)
+		c.Phases = append(c.Phases, sub.Ops)
+		r.settle()
+		c.Faults = append(c.Faults, nil)
+	}
+	sc := C20SweepCase{Base: c}
+	if !pbt.Thorough() {
+		calls := c20Calls(c)
+		var nonEmpty []int
+		for i, l := range calls {
+			if len(l) > 0 {
+				nonEmpty = append(nonEmpty, i)
+			}
+		}
+		if len(nonEmpty) > 0 {
+			sc.Phase = rapid.SampledFrom(nonEmpty).Draw(t, "phase")
+			sc.K = rapid.IntRange(1, len(calls[sc.Phase])).Draw(t, "k")
+		} else {
+			sc.K = 1
+		}
+		sc.Kind = string(rapid.SampledFrom(c20SweepKinds).Draw(t, "kind"))
+	}
+	return sc
+}
+
+func runC20Sweep(sc C20SweepCase) pbt.Result {
+	calls := c20Calls(sc.Base)
+	res := pbt.Result{Extra: map[string]int{}}
+	labels := map[string]bool{}
+	type pos struct{ ph, k int }
+	var positions []pos
+	kinds := []sim.FaultKind{sim.FaultKind(sc.Kind)}
+	if sc.K == 0 {
+		for i, l := range calls {
+			for k := 1; k <= len(l); k++ {
+				positions = append(positions, pos{i, k})
+			}
+		}
+		kinds = c20SweepKinds
+		labels["exhaustive-single-fault-sweep"] = true
+	} else {
+		positions = []pos{{sc.Phase, sc.K}}
+	}
+	for _, l := range calls {
+		res.Extra["controller-calls"] += len(l)
+	}
+	for _, p := range positions {
+		if p.ph >= len(calls) || p.k < 1 || p.k > len(calls[p.ph]) {
+			continue
+		}
+		e := calls[p.ph][p.k-1]
+		for _, kind := range kinds {
+			if kind == sim.FaultCommitTimeout && e.Actor == "jobqueue" && e.Verb == "updateStatus" {
+				res.Excluded++ // open finding E2-start-commit-timeout
+				continue
+			}
+			c := sc.Base
+			c.Faults = make([][]sim.Fault, len(c.Phases))
+			// Nth counts the calls of all controllers during the phase's settle: exactly the k-th one fails
+			c.Faults[p.ph] = []sim.Fault{{Nth: p.k, Count: 1, Kind: kind, Actor: "controllers"}}
+			one := runC20(c)
+			res.Extra["fault-runs"]++
+			labels["kind:"+string(kind)] = true
+			labels["call:"+e.Actor+"/"+e.Verb+"/"+string(e.Res)] = true
+			if one.Extra["faults-hit"] > 0 {
+				res.NonTrivial = true
+			}
+			for _, l := range one.Labels {
+				if l == "inconclusive-livelock" {
+					labels[l] = true
+				}
+			}
+			if one.Violation != nil {
+				v := *one.Violation
+				v.Signature = "sweep/" + v.Signature
+				v.Message = fmt.Sprintf("single %s at controller call %d of phase %d (%s %s %s %s): %s", kind, p.k, p.ph, e.Actor, e.Verb, e.Res, e.Key, v.Message)
+				res.Violation = &v
+				res.Labels = sortedLabels(labels)
+				return res
+			}
+		}
+	}
+	res.Labels = sortedLabels(labels)
+	return res
+}
+
+func TestC20_sweep(t *testing.T) {
+	pbt.Check(t, pbt.Opts{ID: "C20", Name: "sweep", Checks: 400, ThoroughMul: 1,
+		Rule: "small confluent workload of 2-4 phases run fault-free to list, per phase, every write call the four controllers issue while the phase settles; then exactly one call (phase p, position k) fails with one kind of {rejected, timeout, conflict, applied-but-reported-failed} and the differential of the first sub-check decides (quick: one sampled (p, k, kind) per workload; thorough: every position of every phase x every kind, except applied-but-reported-failed on the start write, the open finding); non-trivial = the fault hit its call; distinct = distinct (workload, p, k, kind)"},
+		genC20Sweep, runC20Sweep)
+}
+
 func TestC20_differential(t *testing.T) {
 	pbt.Check(t, pbt.Opts{ID: "C20", Name: "differential", Checks: 1200, ThoroughMul: 12,
 		Rule: "workload of 2-7 phases (user / kubelet / cron-tick / clock ops generated against the live fault-free world) run twice: A settles every phase without faults; B settles it under 1-3 generated transient fault patterns (rejected, timeout, conflict, applied-but-reported-failed; by actor/verb signature, bursts up to 4) and then fault-free; after every phase the abstractions (Jobs: phase/result/tasks, Pods, JobConfig status, active counters) must agree and all C02/C05-C13/C15 monitors run on B; non-trivial = at least one injected fault hit a call; distinct = distinct case"},
